@@ -100,10 +100,10 @@ class Waiting(process_states.Waiting):
         try:
             self.process.ctx[key] = awaitable.result()  # type: ignore
         except Exception as exception:
-            self._waiting_future.set_exception(exception)
+            self._deliver(False, exception)
         else:
             if not self._awaiting:
-                self._waiting_future.set_result(lang.NULL)
+                self._deliver(True, lang.NULL)
 
 
 class WorkChain(mixins.ContextMixin, processes.Process):
